@@ -157,7 +157,7 @@ def grad_tol(g, coords, elements=None, values=None):
     rounding of the nodal values themselves, which no exact algorithm can avoid: each value carries a relative error of
     2^-53 and the gradient divides value differences by the element size, so an error of eps*max|f|/h is inherent
     (it dominates for a constant field of size 5 on elements of 1e-8); allowed: 1e-12 * max|f| / (shortest node
-    distance inside an element), i.e. ~4500 eps for the conditioning of perturbed, sheared, 1:100 thin elements (measured: < 130 eps on 1000 meshes).  At unit
+    distance inside an element), i.e. ~4500 eps for the conditioning of perturbed, sheared, 1:100 thin elements (measured: <= 15 eps on 600 meshes + 600 single elements).  At unit
     scale (|f| < 100, h > 0.1) this term is < 1e-9 and is not used."""
     tol = 1e-8 * (1.0 + max(abs(x) for x in g))
     if elements is not None:
